@@ -40,13 +40,15 @@ class SubProcess(zope.testrunner.feature.Feature):
     def report(self):
         sys.stdout.close()
         # Communicate with the parent.  The protocol is obvious:
+        # (one line per test: the parent splits the report with
+        # ``splitlines()``, so no kind of line break may survive in a name)
         print(self.runner.ran,
               len(self.runner.failures), len(self.runner.errors),
               file=self.original_stderr)
         for test, exc_info in self.runner.failures:
-            print(' '.join(str(test).strip().split('\n')),
+            print(' '.join(str(test).strip().splitlines()),
                   file=self.original_stderr)
         for test, exc_info in self.runner.errors:
-            print(' '.join(str(test).strip().split('\n')),
+            print(' '.join(str(test).strip().splitlines()),
                   file=self.original_stderr)
         self.original_stderr.flush()
